@@ -95,4 +95,12 @@ PROPS = {
         'rule': 'worlds and a permutation (documents reordered and spread over 1-4 files, rules/peers/ports permuted); both runs must give the identical relation',
         'assumptions': ['stdout / returned strings only'],
     },
+    'C10': {
+        'lean': ['Netpol.Properties.C10'],
+        'families': [('ingress', 800, 30000)],
+        'rule': 'worlds with 1-3 Services (selectors from workload labels, named/numbered ports and targetPorts), 0-2 Ingresses (default backend, rule paths; by number / name / '
+                'targetPort-only numbers / missing services) and 0-2 Routes (to, alternateBackends, port.targetPort number/name/none); K-diff against the model of ingress_analyzer.go; '
+                'P against the Lean specification of the ingress-controller lines and of the blocked warnings',
+        'assumptions': ['service port numbers and names unique within a Service'],
+    },
 }
